@@ -3,7 +3,9 @@ import glob
 import json
 import os
 
-from . import core, gen_pos, hist_run, merge_family, treejson as TJ
+import random
+
+from . import core, gen_fuzz, gen_pos, hist_run, merge_family, treejson as TJ
 
 CHECKS = {}
 
@@ -42,6 +44,27 @@ def merge_cases(pid, tier, seed):
             cases += list(gen_pos.story_cases(ns=(0, 1, 2, 3, 4, 5), max_src=3, big_patterns=('every', 'lead')))
             cases += list(gen_pos.item_cases(ms=(0, 1, 2, 3, 4), max_src=3, positions=(0, 1, 2)))
         cases += list(gen_pos.other_cases())
+    # G-fuzz: random structural mutations (blanked / duplicated / dropped / look-alike children, attributes, tails)
+    rng = random.Random(seed * 7 + 11)
+    base = [c for c in cases if c['family'] in ('story', 'item', 'odd', 'other')]
+    rng.shuffle(base)
+    for c in base[:(1500 if tier == 'quick' else 15000)]:
+        d = dict(c)
+        which = rng.random()
+        try:
+            if which < 0.5:
+                d['msg'] = gen_fuzz.mutate(rng, c['msg'])
+            elif which < 0.8:
+                d['ro'] = gen_fuzz.mutate(rng, c['ro'])
+            else:
+                d['msg'], d['ro'] = gen_fuzz.mutate(rng, c['msg']), gen_fuzz.mutate(rng, c['ro'])
+            d.pop('msg_text', None)
+            TJ.to_text(d['msg']), TJ.to_text(d['ro'])
+        except Exception:  # noqa: BLE001 - a mutation that is not serialisable is dropped
+            continue
+        d['label'] = 'fuzz|' + c['label']
+        d['family'] = 'fuzz'
+        cases.append(d)
     # G-hist: every step of seeded random histories run on live objects ("from every reachable state")
     n_hist = 150 if tier == 'quick' else 1500
     hists = hist_run.run_histories([seed * 100003 + k for k in range(n_hist)],
@@ -57,7 +80,7 @@ def make_merge_check(pid):
         oc.exhaustive = True
         oc.extra['scope'] = ('G-pos enumerated completely for the tier scope (see harness/gen_pos.py and '
                              'registry.merge_cases) + every step of seeded random state-aware histories run on '
-                             'live objects (G-hist) + corpus of past failures')
+                             'live objects (G-hist) + random structural mutations of those cases (G-fuzz) + unusual shapes (G-odd) + corpus of past failures')
         return oc
     return run
 
